@@ -195,10 +195,20 @@ func TestCheck(t *testing.T) {
 			gate = []string{scen[0], scen[len(scen)/2], scen[len(scen)-1]}
 		}
 		var o1 *explore.Outcome
+		skipJob := false
 		for _, sn := range gate {
 			o1 = runOne(sn, nil, false)
 			o2 := runOne(sn, nil, false)
 			if o1.Exec.Hash != o2.Exec.Hash || len(o1.Exec.Points) != len(o2.Exec.Points) {
+				if r.Violations() > 0 {
+					// The tree already violates the property (confirmed,
+					// replayed violations of earlier jobs); a job that
+					// cannot be explored on it does not turn that verdict
+					// into a framework error.
+					fmt.Printf("note: job %s skipped: its canonical schedule is not deterministic on this tree, on which earlier jobs found violations\n", sn)
+					skipJob = true
+					break
+				}
 				ev.Framework("scenario %s: canonical schedule is not deterministic (hash %x vs %x, points %d vs %d)",
 					sn, o1.Exec.Hash, o2.Exec.Hash, len(o1.Exec.Points), len(o2.Exec.Points))
 			}
@@ -210,6 +220,9 @@ func TestCheck(t *testing.T) {
 					"virtual_time_s": o1.Exec.Elapsed.Seconds(), "outcome": o1.Class,
 				})
 			}
+		}
+		if skipJob {
+			continue
 		}
 		var roots []explore.Task
 		for _, sn := range scen {
